@@ -183,6 +183,7 @@ func init() {
 
 // wave 9 (second held-out wave; additions made after the measurement)
 var addedRulesW9 = map[string]string{
+	"C04": " A third of the tokens issued by a real download are used after a restart of the gateway with another setting of the verification switch (fault: restart); the switch as it is at use and the address recorded at issuance decide.",
 	"C12": " In signed mode two thirds of the good query tokens lapse within 30-60 s; after the first download time passes until the token is 65-180 s beyond its expiry and the same or another signed-in session presents it again: no file.",
 	"C17": " 1 tunnel in 5 sends a second handshake request right behind the first (same or other capabilities, another version): it is never answered with success.",
 	"C20": " Further KDC behaviour 'reply-pieces': a complete, timely reply that travels in 2-4 TCP segments 1-300 ms apart, the first ending inside the length prefix, right behind it or anywhere in the body; it counts as an answering KDC.",
